@@ -1,2 +1,72 @@
-/- C03 property theorems (under construction) -/
-import Decaf.Model.Exec
+/-
+C03 — Encoding depends only on the group element and equals the specified encoding.
+
+For every square-root routine `sr` meeting the contract, every quadruple `c` representing (in any projective
+scaling) a point `P` of the even subgroup: the encoder returns the canonical integer `s < q < 2^253` that
+ristretto.sage's `encodeSpec` specifies for `P` (`EncSpec`, relational form).  Hence the bytes are the same for
+every representative of the same group element (rescalings, the other member of the coset, affine or projective
+form), differ for different elements, are the 32-byte little-endian form of s, and have their top three bits clear.
+-/
+import Decaf.Lemmas.RoundTrip
+
+namespace C03
+open Model Edwards Decaf
+
+variable {sr : SR}
+
+/-- the optimised encoder returns the specified encoding -/
+theorem encode_eq_spec (h : SRContract sr) {c : Ext} {pt : E} (hr : ERepr c pt) (he : Point.IsEven pt) :
+    ∃ s, Ext.encodeField sr c = some s ∧ s < q ∧ EncSpec pt s := encodeField_spec h hr he
+
+/-- the encoder never panics (for any quadruple at all) -/
+theorem encode_total (h : SRContract sr) (c : Ext) : ∃ s, Ext.encodeField sr c = some s ∧ s < q := by
+  obtain ⟨s, hs, hlt, _⟩ := encodeField_cast h c
+  exact ⟨s, hs, hlt⟩
+
+/-- **one element, one encoding**: any two representatives (any scaling, either member of the coset) of the same
+group element encode identically — even under two different square-root routines (two builds) -/
+theorem encode_respects_element {sr' : SR} (h : SRContract sr) (h' : SRContract sr') {c c' : Ext} {p p' : E}
+    (hr : ERepr c p) (hr' : ERepr c' p') (he : Point.IsEven p) (hc : Point.Coset p p') :
+    Ext.encodeField sr c = Ext.encodeField sr' c' := by
+  obtain ⟨s, hs, hlt, hspec⟩ := encodeField_spec h hr he
+  obtain ⟨s', hs', hlt', hspec'⟩ := encodeField_spec h' hr' (Point.isEven_of_coset hc he)
+  rw [hs, hs', encSpec_coset hc hlt hlt' hspec hspec']
+
+theorem encode_scale_invariant (h : SRContract sr) {c c' : Ext} {p : E} (hr : ERepr c p) (hr' : ERepr c' p)
+    (he : Point.IsEven p) : Ext.encodeField sr c = Ext.encodeField sr c' :=
+  encode_respects_element h h hr hr' he (Point.Coset.refl p)
+
+/-- **different elements, different encodings** -/
+theorem encode_injective (h : SRContract sr) {c c' : Ext} {p p' : E} (hr : ERepr c p) (hr' : ERepr c' p')
+    (he : Point.IsEven p) (he' : Point.IsEven p') (heq : Ext.encodeField sr c = Ext.encodeField sr c') :
+    Point.Coset p p' := by
+  obtain ⟨s, hs, _, hspec⟩ := encodeField_spec h hr he
+  obtain ⟨s', hs', _, hspec'⟩ := encodeField_spec h hr' he'
+  rw [hs, hs'] at heq
+  have : s = s' := by injection heq
+  subst this
+  exact coset_of_encSpec_eq he he' hspec hspec'
+
+/-- equality of elements ⇔ equality of encodings (C08's first clause; also what makes hashing the encoding
+consistent with `Eq`) -/
+theorem eq_iff_encode_eq (h : SRContract sr) {c c' : Ext} {p p' : E} (hr : ERepr c p) (hr' : ERepr c' p')
+    (he : Point.IsEven p) (he' : Point.IsEven p') :
+    Ext.eq c c' = true ↔ Ext.encodeField sr c = Ext.encodeField sr c' := by
+  rw [eq_iff_coset hr hr']
+  exact ⟨fun hc => encode_respects_element h h hr hr' he hc, fun heq => encode_injective h hr hr' he he' heq⟩
+
+/-- the byte form: 32 bytes, little-endian canonical form of s, top three bits clear -/
+theorem encode_bytes (h : SRContract sr) (c : Ext) :
+    ∃ s bs, Ext.encodeField sr c = some s ∧ Ext.encode sr c = some bs ∧ bs = toLeBytes s 32 ∧ bs.length = 32 ∧
+      leBytes bs = s ∧ s < q ∧ bs.getD 31 0 < 32 ∧ ∀ b ∈ bs, b < 256 := by
+  obtain ⟨s, hs, hlt⟩ := encode_total h c
+  have h253 : s < 2 ^ 253 := lt_trans hlt q_lt_two_pow_253
+  refine ⟨s, toLeBytes s 32, hs, by unfold Ext.encode; rw [hs]; rfl, rfl, toLeBytes_length _ _, ?_, hlt,
+    top_bits_clear s h253, toLeBytes_lt _ _⟩
+  exact leBytes_toLeBytes s 32 (lt_trans h253 (by norm_num))
+
+/-- the identity (either representative) encodes to zero -/
+example : Ext.encodeField sqrtRatioMin ⟨0, q - 1, 1, 0⟩ = some 0 ∧ Ext.encodeField sqrtRatioArk Ext.identity = some 0 := by
+  decide +kernel
+
+end C03
